@@ -291,4 +291,137 @@ def r4_declared_bases(a, tier):
     return rep
 
 
-RULES = [r1_child_discovery, r2_traversals, r3_attribute_names, r4_declared_bases]
+def r5_construction(a, tier):
+    from ..minieval import Obj, Raised
+    from ..modelinterp import Bound, ClassRef
+    rep = RuleReport(
+        'C07.R5',
+        'construction contracts, interpreted on stand-ins: a rule without a type keeps its plain AST (_default returns its argument); a '
+        'typed rule hands the AST and the rule\'s further parameters to the constructor of the FIRST name of the type spec; the '
+        'constructor is the registered one, else the builtin of that name (int, str ... convert the value), else a class synthesized '
+        'with the declared base and registered, so that the second request returns the same class; SynthNode.__post_init__ turns EVERY '
+        'item of a dict AST into an attribute with the same value (falsy ones too) and then drops the dict, and keeps a non-dict AST as '
+        'the `ast` attribute; BaseNode.__post_init__ injects the AST value of every declared field',
+        floor=8,
+    )
+    SEM = 'tatsu.objectmodel.builder.ModelBuilderSemantics'
+    BLD = 'tatsu.objectmodel.builder.ModelBuilder'
+    fn = a.p.func(f'{SEM}._default')
+
+    def interp(extra=None):
+        return ModelInterp(a, {'type': type, 'mangle': Hook(lambda s_: s_), **(extra or {})})
+
+    # (a) untyped rule
+    me = Stub(SEM, _builder=Stub(BLD), config=Stub('tatsu.objectmodel.builder.BuilderConfig', basetype=object))
+    sentinel = {'k': 1}
+    try:
+        got = interp().call_fn(fn, [me, sentinel])
+    except Unsupported as e:
+        raise AnalysisError(f'C07.R5: cannot interpret _default: {e}') from e
+    rep.add({'case': '_default(ast) for an untyped rule', 'returns_its_argument': got is sentinel})
+    if got is not sentinel:
+        rep.fail(fn.qualname, 'construct:untyped', f'_default(ast) without a type returns {got!r}, not the AST it was given: with model building on, '
+                 f'untyped rules lose their value', fn.loc)
+    # (b) typed rule: arguments of the instantiation
+    inst: list = []
+    builder = Stub(BLD, _get_constructor=Hook(lambda name, base=None: type(name, (base,), {})),
+                   _instanceof=Hook(lambda typename, known, *args, base=None, **kw: inst.append((typename, known, args, kw)) or 'NODE'))
+    me = Stub(SEM, _builder=builder, builder=builder, config=Stub('tatsu.objectmodel.builder.BuilderConfig', basetype=object))
+    got = interp().call_fn(fn, [me, sentinel, 'T::B', 'p1', 7], )
+    ok = got == 'NODE' and len(inst) == 1 and inst[0][0] == 'T' and inst[0][2][:1] == (sentinel,) and inst[0][2][1:] == ('p1', 7) \
+        and inst[0][1].get('ast') is sentinel
+    rep.add({'case': "_default(ast, 'T::B', 'p1', 7)", 'instantiates': inst[0][0] if inst else None, 'positional': [repr(x) for x in (inst[0][2] if inst else ())], 'ok': ok})
+    if not ok:
+        rep.fail(fn.qualname, 'construct:typed-args', f'_default(ast, "T::B", "p1", 7) instantiates {inst}; required: class T with the AST first and the '
+                 f'further rule parameters ("p1", 7) after it', fn.loc)
+    # (c) constructor lookup
+    gc = a.p.func(f'{BLD}._get_constructor')
+    class _Reg:
+        __name__ = 'Known'
+
+        def __repr__(self):
+            return '<registered constructor>'
+
+        def __call__(self, *x, **k):
+            return None
+    REG = _Reg()
+    synth_calls: list = []
+
+    def synth(name, bases, **kw):
+        synth_calls.append((name, bases))
+        return type(name, tuple(b for b in bases if isinstance(b, type)) or (object,), {})
+    for name, registry, want in (('Known', {'Known': REG}, 'registered'), ('int', {}, 'builtin'), ('Fresh', {}, 'synthesized')):
+        synth_calls.clear()
+        bme = Stub(BLD, _registry=dict(registry), config=Stub('tatsu.objectmodel.builder.BuilderConfig', synthok=True))
+        it = interp({'synthesize': Hook(synth), 'vars': Hook(lambda m: {'int': int, 'str': str, 'float': float, 'bool': bool, 'list': list, 'dict': dict}),
+                     'builtins': 'builtins',
+                     'getattr': Hook(lambda o, n, *d: (getattr(o, n, *d) if n == '__name__' and (isinstance(o, type) or o is REG) else (d[0] if d else None)))})
+        Base = type('Base', (), {})
+        try:
+            c1 = it.call_bound(Bound(bme, gc), [name], {'base': Base})
+            c2 = it.call_bound(Bound(bme, gc), [name], {'base': Base})
+        except Unsupported as e:
+            raise AnalysisError(f'C07.R5: cannot interpret _get_constructor: {e}') from e
+        if want == 'registered':
+            ok = c1 is REG and not synth_calls
+        elif want == 'builtin':
+            ok = c1 is int and not synth_calls
+        else:
+            ok = isinstance(c1, type) and c1.__name__ == 'Fresh' and c2 is c1 and len(synth_calls) == 1 and synth_calls[0][1] == (Base,)
+        rep.add({'case': f'_get_constructor({name!r})', 'kind': want, 'first': repr(c1), 'second_is_first': c2 is c1, 'synthesized': [(n, [getattr(b, '__name__', b) for b in bs]) for n, bs in synth_calls], 'ok': ok})
+        if not ok:
+            rep.fail(gc.qualname, f'construct:lookup:{want}', f'_get_constructor({name!r}, base=Base) gives {c1!r} then {c2!r} with synthesize calls {synth_calls}; '
+                     f'required: {"the registered constructor" if want == "registered" else "the builtin int" if want == "builtin" else "one class synthesized with bases (Base,), registered and returned again"}', gc.loc)
+    # (d) SynthNode / BaseNode attribute injection
+    sp = a.p.func('tatsu.objectmodel.synth.SynthNode.__post_init__')
+    items = {'zero': 0, 'none': None, 'empty': [], 'text': 'x', 'flag': False}
+    node = Stub('tatsu.objectmodel.synth.SynthNode', ast=dict(items), ctx=None, parseinfo=None, _in_field_order=Hook(lambda keys: list(keys)))
+    it = interp({'setattr': Hook(lambda o, n, v: o._attrs.__setitem__(n, v)), 'hasattr': Hook(lambda o, n: isinstance(o, Stub) and n in o._attrs),
+                 'getattr': Hook(lambda o, n, *d: o._attrs.get(n, *d) if isinstance(o, Stub) else (d[0] if d else None))})
+    it.globals['inspect'] = Hook(None, ismethod=Hook(lambda x: False))
+    try:
+        it.call_bound(Bound(node, sp), [], {})
+        got = {k: node._attrs.get(k, '<missing>') for k in items}
+        ok = got == items and node._attrs.get('ast') is None
+    except Unsupported as e:
+        got, ok = f'not interpretable: {e}', None
+    rep.add({'case': 'SynthNode.__post_init__ on a dict AST with falsy values', 'attributes': str(got), 'ast_after': repr(node._attrs.get('ast')), 'ok': ok})
+    if ok is False:
+        rep.fail(sp.qualname, 'construct:synth-attrs', f'SynthNode.__post_init__ on {items} leaves the attributes {got} and ast={node._attrs.get("ast")!r}; required: '
+                 f'every item as an attribute with its value, ast None', sp.loc)
+    # BaseNode: declared fields receive the AST values (falsy too), undeclared keys are ignored, a non-dict AST stays
+    bp = a.p.func('tatsu.objectmodel.basenode.BaseNode.__post_init__')
+    node = Stub('tatsu.objectmodel.basenode.BaseNode', ast={'zero': 0, 'text': 'x', 'undeclared': 1}, ctx=None, parseinfo=None, zero=None, text=None,
+                _in_field_order=Hook(lambda keys: list(keys)))
+    try:
+        it.call_bound(Bound(node, bp), [], {})
+        got = {k: node._attrs.get(k, '<missing>') for k in ('zero', 'text', 'undeclared')}
+        ok = got == {'zero': 0, 'text': 'x', 'undeclared': '<missing>'} and isinstance(node._attrs.get('ast'), dict)
+    except Unsupported as e:
+        got, ok = f'not interpretable: {e}', None
+    rep.add({'case': 'BaseNode.__post_init__ with declared fields zero, text', 'attributes': str(got), 'ok': ok})
+    if ok is False:
+        rep.fail(bp.qualname, 'construct:basenode-attrs', f'BaseNode.__post_init__ with declared fields zero/text and AST {{zero: 0, text: x, undeclared: 1}} leaves '
+                 f'{got}; required zero=0, text=x, nothing for the undeclared key', bp.loc)
+    node = Stub('tatsu.objectmodel.basenode.BaseNode', ast='VALUE', ctx=None, parseinfo=None)
+    try:
+        it.call_bound(Bound(node, bp), [], {})
+        ok = node._attrs.get('ast') == 'VALUE'
+    except Unsupported:
+        ok = None
+    rep.add({'case': 'BaseNode.__post_init__ on a non-dict AST', 'ast_after': repr(node._attrs.get('ast')), 'ok': ok})
+    if ok is False:
+        rep.fail(bp.qualname, 'construct:basenode-value', f'a node built from a rule without names must keep the rule\'s value as .ast; it is {node._attrs.get("ast")!r}', bp.loc)
+    node = Stub('tatsu.objectmodel.synth.SynthNode', ast='VALUE', ctx=None, parseinfo=None)
+    try:
+        it.call_bound(Bound(node, sp), [], {})
+        ok = node._attrs.get('ast') == 'VALUE'
+    except Unsupported:
+        ok = None
+    rep.add({'case': 'SynthNode.__post_init__ on a non-dict AST', 'ast_after': repr(node._attrs.get('ast')), 'ok': ok})
+    if ok is False:
+        rep.fail(sp.qualname, 'construct:synth-value', f'a node built from a rule without names must keep the rule\'s value as .ast; it is {node._attrs.get("ast")!r}', sp.loc)
+    return rep
+
+
+RULES = [r1_child_discovery, r2_traversals, r3_attribute_names, r4_declared_bases, r5_construction]
